@@ -66,6 +66,10 @@ def render(ctx, tpl, ds, de):
             parts.append(dict(kind='lit', start=st, end=len(src)))
         else:
             raise KeyError(p)
+    try:
+        ctx.note('document', list(src))   # for the evidence samples: the rendered document under the path's model
+    except Exception:
+        pass
     return src, parts
 
 
